@@ -426,7 +426,9 @@ func c11WriteValues(c *fw.Ctx) {
 		func(v *model.N) *model.N { return model.IAsg(id("a"), num(1), v) },
 		func(v *model.N) *model.N { return model.IAsg(id("b"), num(0), v) },
 		func(v *model.N) *model.N { return model.IAsg(model.Idx(id("n"), num(1)), num(0), v) },
-		func(v *model.N) *model.N { return model.IAsg(id("a"), model.Bin("-", model.CallN(model.BiLen, id("a")), num(1)), v) },
+		func(v *model.N) *model.N {
+			return model.IAsg(id("a"), model.Bin("-", model.CallN(model.BiLen, id("a")), num(1)), v)
+		},
 	}
 	values := []func() *model.N{
 		func() *model.N { return num(50) },
@@ -445,13 +447,21 @@ func c11WriteValues(c *fw.Ctx) {
 		{"assigned", func(w *model.N) []*model.N { return []*model.N{model.ExprS(model.Asg("r", w)), model.Print(id("r"))} }},
 		{"declared", func(w *model.N) []*model.N { return []*model.N{model.Var("d", w), model.Print(id("d"))} }},
 		{"stored-again", func(w *model.N) []*model.N { return []*model.N{model.ExprS(model.IAsg(id("a"), num(0), w))} }},
-		{"appended", func(w *model.N) []*model.N { return []*model.N{model.ExprS(model.Asg("r", model.CallN(model.BiAppend, id("a"), model.Grp(w)))), model.Print(id("r"))} }},
+		{"appended", func(w *model.N) []*model.N {
+			return []*model.N{model.ExprS(model.Asg("r", model.CallN(model.BiAppend, id("a"), model.Grp(w)))), model.Print(id("r"))}
+		}},
 		{"element", func(w *model.N) []*model.N { return []*model.N{model.Print(model.Arr(model.Grp(w), id("a")))} }},
 		{"argument", func(w *model.N) []*model.N { return []*model.N{model.Print(model.CallN("idf", model.Grp(w)))} }},
-		{"returned", func(w *model.N) []*model.N { return []*model.N{model.Fun("rw", nil, model.Return(w)), model.Print(model.CallN("rw"))} }},
+		{"returned", func(w *model.N) []*model.N {
+			return []*model.N{model.Fun("rw", nil, model.Return(w)), model.Print(model.CallN("rw"))}
+		}},
 		{"compared", func(w *model.N) []*model.N { return []*model.N{model.Print(model.Bin("==", model.Grp(w), num(50)))} }},
-		{"property", func(w *model.N) []*model.N { return []*model.N{model.Print(model.Obj([]string{"k"}, []*model.N{model.Grp(w)}))} }},
-		{"length", func(w *model.N) []*model.N { return []*model.N{model.Print(model.CallN(model.BiLen, model.Arr(model.Grp(w))))} }},
+		{"property", func(w *model.N) []*model.N {
+			return []*model.N{model.Print(model.Obj([]string{"k"}, []*model.N{model.Grp(w)}))}
+		}},
+		{"length", func(w *model.N) []*model.N {
+			return []*model.N{model.Print(model.CallN(model.BiLen, model.Arr(model.Grp(w))))}
+		}},
 	}
 	for ti, t := range targets {
 		for vi, v := range values {
